@@ -310,13 +310,17 @@ def run_check(prop, tier, layers, level_text='', assumptions=(), cap_s=None,
 def write_evidence(prop, ev):
     d = os.path.join(VERIF, 'evidence')
     os.makedirs(d, exist_ok=True)
-    try:
-        import jsonschema
-        schema_path = '/root/.vp/EVIDENCE.schema.json'
-        if os.path.exists(schema_path):
-            with open(schema_path) as f:
-                jsonschema.validate(json.loads(json.dumps(ev, default=str)), json.load(f))
-    except ImportError:
-        pass
-    with open(os.path.join(d, prop + '.json'), 'w') as f:
+    path = os.path.join(d, prop + '.json')
+    with open(path, 'w') as f:
         json.dump(ev, f, indent=1, default=str, sort_keys=True)
+    # schema validation with the tooling interpreter (jsonschema is not in /venv)
+    import shutil
+    vt = shutil.which('python3-vt')
+    if vt and os.path.exists('/root/.vp/EVIDENCE.schema.json'):
+        code = ("import json,sys,jsonschema;"
+                "jsonschema.validate(json.load(open(sys.argv[1])),"
+                "json.load(open('/root/.vp/EVIDENCE.schema.json')))")
+        p = subprocess.run([vt, '-c', code, path], stdout=subprocess.PIPE, stderr=subprocess.STDOUT)
+        if p.returncode != 0:
+            print('HARNESS-ERROR: evidence file does not validate: %s'
+                  % p.stdout.decode(errors='replace')[-400:])
